@@ -9,7 +9,7 @@ import subprocess
 import sys
 import tempfile
 
-from engine import gen_states, pool_map
+from engine import REPO, gen_states, pool_map
 from readers import read_text, run_cli, split_gfa, write_text
 
 
@@ -87,7 +87,7 @@ def one_run(d, tag, lines, order, by_chrom, withseq, gz, variant, hashseed=None,
         r = run_cli(argv, timeout=120)
         status = r["status"] if r["status"] == "ok" else r["status"] + ":" + r["exc"][:60]
     else:
-        env = dict(os.environ, PYTHONHASHSEED=str(hashseed), PYTHONPATH="/repo")
+        env = dict(os.environ, PYTHONHASHSEED=str(hashseed), PYTHONPATH=REPO)
         p = subprocess.run([sys.executable, "-m", "gaftools"] + argv, env=env, capture_output=True, text=True, timeout=120)
         status = "ok" if p.returncode == 0 else f"exit:{p.returncode}:" + (p.stderr.strip().splitlines() or [""])[-1][:60]
     gfas = sorted(glob.glob(os.path.join(out, "*.gfa")))
@@ -162,6 +162,13 @@ def run_session(job):
                         runs.append(one_run(d, f"r{oi}{int(bc)}", base, order, bc, False, False, "with", pair=len(runs)))
                     else:
                         runs.append(one_run(d, f"r{oi}{int(bc)}", base, order, bc, False, False, "with"))
+                if oi == 0 and without:
+                    # the same request on an input that already carries BO/NO tags (e.g. of an earlier run on another
+                    # version of the graph), for the skipped chromosomes too
+                    stale = [l + f"\tBO:i:{7 + 3 * k}\tNO:i:{k % 2}" if l.startswith("S\t") else l for k, l in enumerate(base)]
+                    for bc in (True, False):
+                        runs.append(one_run(d, f"sw{int(bc)}", stale, without, bc, False, False, "without"))
+                        runs.append(one_run(d, f"sr{int(bc)}", stale, order, bc, False, False, "with", pair=len(runs)))
         c = {"id": sid, "mode": mode, "chroms": st["chroms"], "runs": runs}
         if mode == "C07":
             iS, iL, _ = split_gfa("\n".join(base) + "\n")
